@@ -460,6 +460,12 @@ func c10Case(w *core.W, j int) {
 	modk("key.algorithm", func(kk *dns.DNSKEY) { kk.Algorithm = allAlgs[(j+2)%len(allAlgs)] })
 	modk("key.owner", func(kk *dns.DNSKEY) { kk.Hdr.Name = "k." + kk.Hdr.Name })
 	modk("key.class", func(kk *dns.DNSKEY) { kk.Hdr.Class = 3 })
+	// a key published at an ancestor or a descendant of the signer name is not the signer's key
+	for up := 1; up <= len(zone); up++ {
+		anc := model.Name(zone[up:]).Pres()
+		modk("key.owner-ancestor", func(kk *dns.DNSKEY) { kk.Hdr.Name = anc })
+	}
+	modk("key.owner-descendant", func(kk *dns.DNSKEY) { kk.Hdr.Name = "sub." + kk.Hdr.Name })
 	rawKey, _ := base64.StdEncoding.DecodeString(k.Key.PublicKey)
 	for f := 0; f < 6; f++ {
 		bit := g.R.IntN(len(rawKey) * 8)
